@@ -72,17 +72,18 @@ fn status_of(code: u8) -> RadialStatus {
     }
 }
 
-/// Header mapping, all headers (date/time in range), no moments: numbers, angles (bitwise),
-/// spacing 0.5 x code, status one-to-one on the six documented codes, time in epoch ms,
+/// Header mapping, all headers (date/time concrete, see c07_collection_time), no moments: numbers,
+/// angles (bitwise), spacing 0.5 x code, status one-to-one on the six documented codes,
 /// borrowing == consuming conversion.
 #[kani::proof]
 #[kani::stub(alloc::fmt::format, crate::stubs::fmt_format)]
 fn c07_header_mapping() {
-    let h = any_header();
-    kani::assume(h.date >= 1 && h.time < 86_400_000);
+    let mut h = any_header();
+    h.date = 19_000;
+    h.time = 12_345_678;
     kani::assume(!h.azimuth_angle.is_nan() && !h.elevation_angle.is_nan());
-    let (date, time, azn, aza, sp, st, eln, ela) = (
-        h.date, h.time, h.azimuth_number, h.azimuth_angle, h.azimuth_resolution_spacing,
+    let (azn, aza, sp, st, eln, ela) = (
+        h.azimuth_number, h.azimuth_angle, h.azimuth_resolution_spacing,
         h.radial_status, h.elevation_number, h.elevation_angle,
     );
     let m = msg(h, [None, None, None, None, None, None, None]);
@@ -101,7 +102,7 @@ fn c07_header_mapping() {
     if st <= 5 {
         assert!(r.radial_status() == status_of(st), "C07: radial status mapping");
     }
-    assert!(r.collection_timestamp() == (date as i64 - 1) * 86_400_000 + time as i64, "C07: collection time in epoch ms");
+    assert!(r.collection_timestamp() == 18_999i64 * 86_400_000 + 12_345_678, "C07: collection time in epoch ms");
     assert!(r.reflectivity().is_none() && r.velocity().is_none() && r.spectrum_width().is_none());
     assert!(r.differential_reflectivity().is_none() && r.differential_phase().is_none());
     assert!(r.correlation_coefficient().is_none() && r.specific_differential_phase().is_none());
@@ -114,14 +115,52 @@ fn c07_header_mapping() {
     };
     assert!(r == r2, "C07: borrowing and consuming conversions differ");
     wit!(st == 4 && sp == 2 && azn == 720);
+    wit!(st == 5);
     core::mem::forget((r, r2));
+}
+
+/// Collection time: for every in-range date and time of day both conversions report the header's
+/// date-time in epoch milliseconds (other header fields concrete).
+#[kani::proof]
+#[kani::stub(alloc::fmt::format, crate::stubs::fmt_format)]
+fn c07_collection_time() {
+    let mut h = any_header();
+    h.azimuth_angle = 10.5;
+    h.elevation_angle = 0.5;
+    h.azimuth_resolution_spacing = 1;
+    h.radial_status = 1;
+    kani::assume(h.date >= 1 && h.time < 86_400_000);
+    let (date, time) = (h.date, h.time);
+    let m = msg(h, [None, None, None, None, None, None, None]);
+    let want = (date as i64 - 1) * 86_400_000 + time as i64;
+    match m.radial() {
+        Ok(r) => {
+            assert!(r.collection_timestamp() == want, "C07: radial() collection time in epoch ms");
+            core::mem::forget(r);
+        }
+        Err(e) => {
+            core::mem::forget(e);
+            panic!("C07: radial() failed on an in-range header")
+        }
+    }
+    match m.into_radial() {
+        Ok(r) => {
+            assert!(r.collection_timestamp() == want, "C07: into_radial() collection time in epoch ms");
+            core::mem::forget(r);
+        }
+        Err(e) => {
+            core::mem::forget(e);
+            panic!("C07: into_radial() failed")
+        }
+    }
+    wit!(date == 65535 && time == 86_399_999);
 }
 
 /// Moment routing: a symbolic subset of the seven moments, each with its own tag byte as data;
 /// the radial reports exactly those present, each carrying its own bytes, scale and offset;
 /// both conversions agree.
 #[kani::proof]
-#[kani::unwind(4)]
+#[kani::unwind(9)]
 #[kani::stub(alloc::fmt::format, crate::stubs::fmt_format)]
 fn c07_moment_routing() {
     let mut h = any_header();
